@@ -75,9 +75,9 @@ def set_layer_cases(tier, layer):
     if layer == 'set2':
         return _set_cases(AB.A_PAIR_T if th else AB.A_PAIR, 2, [0])
     if layer == 'set2opt':
-        return _set_cases(AB.A_PAIR if th else AB.A_OPT, 2, allo[1:])
+        return _set_cases(AB.A_PAIR if th else AB.A_OPT_Q, 2, allo[1:])
     if layer == 'set3':
-        return _set_cases(AB.A_TRIPLE_T if th else AB.A_TRIPLE, 3, [0])
+        return _set_cases(AB.A_TRIPLE_T if th else AB.A_TRIPLE_Q, 3, [0])
     if layer == 'set3opt':
         return _set_cases(AB.A_TRIPLE, 3, allo[1:])
     if layer == 'set4':
@@ -112,8 +112,9 @@ class C14(Check):
                  'under PYTHONHASHSEED 0/1/2')
     rule = ('set layers: one case per (example set, option point), all n! '
             'orders + dict/zero-count dict/Series/categorical/two-Series forms '
-            '+ each element repeated x2, x3 + all doubled + repeated and '
-            'seeded calls, non-trivial = at least two distinct examples and a '
+            '+ each element repeated x2, x3 + all doubled + repeated call + '
+            'call after an unrelated call in a pristine module + seeded calls '
+            'from two generator pre-states, non-trivial = at least two distinct examples and a '
             'non-empty result; memo layer: one case per (6-set menu, 3 option '
             'points) = 18 ops, BFS depth<=3 (4 thorough, reduced menu), state '
             '= frozenset of memo keys + global PRNG state; prng layers: one '
@@ -126,19 +127,26 @@ class C14(Check):
         '(thorough) distinct examples; 8 option points; pruning options '
         '(max_patterns, min_strings_per_pattern) excluded because they make '
         'frequency matter by design',
-        'under a sampling Size the order of the examples decides which ones '
-        'are drawn (tdda\'s own database discoverer sorts before calling '
-        'extract): permutation invariance of seeded *sampled* calls is '
-        'counted as unspecified, not alarmed on',
+        'seeded sampled calls: order invariance is checked on the reversed '
+        'and the rotated input (sets of 3-6 examples); the signature says '
+        'whether the differing results leave examples unmatched (then the '
+        'root cause is the incomplete final extraction reported by C03)',
         'unseeded sampled calls are random by design: no clause',
-        'the memo, nCalls and the global random generator are taken to be the '
-        'only module state shared between calls; histories are rebuilt from '
-        'a cleared memo and a fixed generator state',
+        'every case runs in a fresh instance of the rexpy module (source '
+        're-executed into a new namespace), so all module-level state starts '
+        'pristine; inside a memo history the from-scratch state is a cleared '
+        'memo, nCalls = 0 and random.seed(4242)',
+        'a case that uses more than 20 s (90 s for history / child-process '
+        'cases) of CPU is reported as uncaught:CaseTimeout; after 3 such '
+        'time-outs a worker stops executing further cases',
         'None inside a list and lone surrogates are outside the domain; None '
         'in a Series is documented as ignored and is included',
     ]
 
-    SAMPLED_PERM_IS_VIOLATION = False
+    # The statement and its quantifier ("all permutations ... x Size settings
+    # that force sampling") make order-invariance a must-clause for seeded
+    # sampled calls too.  Set to False to count it as unspecified instead.
+    SAMPLED_PERM_IS_VIOLATION = True
 
     def hashseeds(self, tier, verif_seed):
         return [0, 1, 2] if tier == 'thorough' else [verif_seed % 3]
@@ -264,6 +272,15 @@ class C14(Check):
         return self.call(self.rexpy.extract, examples, **k)
 
     def run_case(self, case):
+        if AB.Watchdog.tripped():
+            R = Res()
+            R.unspec += 1
+            R.out('not-run:after-%d-timeouts' % AB.Watchdog.max_trips)
+            return R
+        with AB.Watchdog(90 if case['k'] in ('memo', 'hs', 'fake') else 20):
+            return self.run_case_(case)
+
+    def run_case_(self, case):
         k = case['k']
         self.rexpy = self.fresh_module()
         if k == 'set':
@@ -512,21 +529,47 @@ class C14(Check):
             '0' if not draws else '>0', root,
             ':state-changed' if unrestored else '',
             ':result-varies' if any(o != obs[0] for o in obs[1:]) else ''))
-        # order of the examples under sampling: unspecified (see assumptions)
-        self.reset()
-        rnd.seed(100)
-        rp = self.ex(list(reversed(xs)), {}, size=Size(**pt), seed=seed)
-        R.ev()
-        if draws and rp != obs[0]:
-            if self.SAMPLED_PERM_IS_VIOLATION:
-                R.viol('seeded-sampled:order-dependent',
-                       'same-multiset-same-result',
-                       dict(detail, reversed=rp, forward=obs[0]), 'perm')
+        # order of the examples under sampling (the quantifier names
+        # permutations x Size settings that force sampling)
+        if draws:
+            variants = [list(reversed(xs)), list(xs[1:]) + list(xs[:1])]
+            differs = None
+            for inp in variants:
+                self.reset()
+                rnd.seed(100)
+                rp = self.ex(inp, {}, size=Size(**pt), seed=seed)
+                R.ev()
+                if rp != obs[0] and differs is None:
+                    differs = (inp, rp)
+            if differs is None:
+                R.out('sampled-perm:same')
             else:
-                R.unspec += 1
-                R.out('sampled-perm:order-dependent(unspecified)')
-        elif draws:
-            R.out('sampled-perm:same')
+                # independent look at the result: does it account for every
+                # example?  (if not, the order dependence is a symptom of the
+                # incomplete final extraction that C03 reports)
+                import re
+                def covers(rexes, s):
+                    try:
+                        return any(re.compile(r, re.U | re.S).fullmatch(s)
+                                   for r in rexes)
+                    except re.error:
+                        return False
+                incomplete = [s for s in xs
+                              if not covers(obs[0], s)
+                              or not covers(differs[1], s)]
+                sig = ('seeded-sampled:order-dependent:%s'
+                       % ('examples-left-unmatched' if incomplete
+                          else 'all-examples-matched'))
+                if self.SAMPLED_PERM_IS_VIOLATION:
+                    R.out('sampled-perm:order-dependent')
+                    R.viol(sig, 'same-multiset-same-result',
+                           dict(detail, input=list(xs), result=obs[0],
+                                reordered_input=differs[0],
+                                reordered_result=differs[1],
+                                unmatched_examples=incomplete), 'perm')
+                else:
+                    R.unspec += 1
+                    R.out('sampled-perm:order-dependent(unspecified)')
         return R
 
     # ------------------------------------------------------ (c) E2 seam
